@@ -79,6 +79,35 @@ that `b` contains, and applies the fallback rule with `a`'s entry "h2" and `b`'s
 `processClientHello` (`Facts.*.negAlpnCallServerFirst`). -/
 def treeAlpnOuterIsFirstArg : Bool := true
 
+/-! The server's cipher-suite selection and its resumption decision are TRANSLATED as well
+(`Gotlcp.Src.{tlcp,dtlcp}.sel`: `Config.cipherSuites`, `mutualCipherSuite`, `selectCipherSuite`,
+`serverHandshakeState.cipherSuiteOk`, `serverHandshakeState.pickCipherSuite`,
+`serverHandshakeState.checkForResumption`, and the package variables `cipherSuitesPreferenceOrder`,
+`disabledCipherSuites`, `defaultCipherSuites`).  `Gotlcp.Tie.Select` / `Gotlcp.Tie.ResumeDecision` prove, for all
+inputs, that the translated text computes `serverPick`, `selectCipherSuite`, `cipherSuiteOk`, `configSuites`,
+`mutualCipherSuite` and the guards of `serverResumes` below, instantiated with the literals that follow (and
+with the flag constants 2 and 1).  A semantic change of those Go functions breaks a tie proof; a renaming or an
+equivalent re-arrangement breaks nothing. -/
+
+/-- `cipherSuitesPreferenceOrder` of this tree: ECC-GCM, ECC-CBC, ECDHE-GCM, ECDHE-CBC (`tie_tables_*`) -/
+def treePref : List Nat := [0xe053, 0xe013, 0xe051, 0xe011]
+
+/-- `disabledCipherSuites` of this tree (`tie_tables_*`) -/
+def treeDisabled : List Nat := []
+
+/-- the server's `pickCipherSuite` walks ITS preference list in the outer loop of `selectCipherSuite` and only looks
+each entry up in the client's offer (`tie_pickCipherSuite_*`) -/
+def treeServerPrefFirst : Bool := true
+
+/-- `checkForResumption` applies the two client-authentication guards (`tie_resumeDecision_*`); that
+`doResumeHandshake` re-checks the recorded certificates is a fact about untranslated code
+(`Facts.*.negResumeReprocessesCerts`) -/
+def treeResumePolicyGuards : Bool := true
+
+/-- `checkForResumption` applies the version guard, the "client still offers the suite" guard and the
+"configuration in use still enables the suite, with usable keys" guard (`tie_resumeDecision_*`) -/
+def treeResumeSuiteGuards : Bool := true
+
 inductive Failure where
   | clientNoVersion      -- makeClientHello: no supported versions
   | version              -- server: client offered only unsupported versions
